@@ -93,81 +93,114 @@ func newCreateTable(ct sql.CreateTableStmt) (*Schema, error) {
 		Table:        ct.Table,
 		WithoutRowid: ct.WithoutRowid,
 	}
+	// SQLite names automatic indexes sqlite_autoindex_<table>_<n>, n being
+	// the number of indexes the table has when the constraint is processed,
+	// plus one. Constraints are processed in the order they are written.
 	autoindex := 1
+	autoname := func() string {
+		return fmt.Sprintf("sqlite_autoindex_%s_%d", st.Table, autoindex)
+	}
+	// The primary key of a WITHOUT ROWID table which could have been a rowid
+	// alias (a single INTEGER column) gets its index only when SQLite reaches
+	// the end of the statement, after all other automatic indexes. Until then
+	// a UNIQUE constraint on the same column makes a (numbered) index of its
+	// own, which finally becomes the primary key.
+	pkDeferred := false
+	withoutRowidPK := func(cols []IndexColumn, deferred bool) {
+		dup := false
+		if ind := st.findIndex(cols); ind != nil {
+			// an earlier UNIQUE index on these columns becomes the primary
+			// key, sort order included
+			dup = true
+			cols = ind.Columns
+		}
+		st.setPK(cols)
+		switch {
+		case deferred:
+			pkDeferred = !dup
+		case !dup:
+			autoindex++
+		}
+	}
+	unique := func(cols []IndexColumn) {
+		if pkDeferred && sameIndexColumns(st.PK, cols) {
+			pkDeferred = false
+			autoindex++
+			return
+		}
+		if st.addIndex(false, autoname(), cols) {
+			autoindex++
+		}
+	}
 	for _, c := range ct.Columns {
-		col := TableColumn{
+		c := c
+		st.Columns = append(st.Columns, TableColumn{
 			Column:  c.Name,
 			Type:    c.Type,
 			Null:    c.Null,
 			Default: c.Default,
 			Collate: c.Collate,
 			Rowid:   false,
-		}
-		if c.PrimaryKey {
+		})
+		col := &st.Columns[len(st.Columns)-1]
+		primaryKey := func() {
 			col.Rowid = (!ct.WithoutRowid) && isRowid(false, c.Type, c.PrimaryKeyDir)
 			col.Null = !ct.WithoutRowid && c.Null // w/o rowid forces not null
-
-			name := fmt.Sprintf("sqlite_autoindex_%s_%d", st.Table, autoindex)
-			if ct.WithoutRowid {
-				name = ""
+			cols := []IndexColumn{
+				{
+					Column:    c.Name,
+					Collate:   c.Collate,
+					SortOrder: c.PrimaryKeyDir,
+				},
 			}
-			if ct.WithoutRowid {
+			switch {
+			case ct.WithoutRowid:
 				// non-rowid primary keys have a special place
-				st.setPK([]IndexColumn{
-					{
-						Column:    c.Name,
-						Collate:   c.Collate,
-						SortOrder: c.PrimaryKeyDir,
-					},
-				})
-				autoindex++
-			} else {
-				if col.Rowid {
-					st.RowidPK = true
-				} else if st.addIndex(
-					true,
-					name,
-					[]IndexColumn{
-						{
-							Column:    c.Name,
-							Collate:   c.Collate,
-							SortOrder: c.PrimaryKeyDir,
-						},
-					},
-				) {
+				withoutRowidPK(cols, isRowid(false, c.Type, c.PrimaryKeyDir))
+			case col.Rowid:
+				st.RowidPK = true
+			default:
+				if st.addIndex(true, autoname(), cols) {
 					autoindex++
 				}
 			}
 		}
-		if c.Unique {
-			if st.addIndex(
-				false,
-				fmt.Sprintf("sqlite_autoindex_%s_%d", st.Table, autoindex),
-				[]IndexColumn{
-					{
-						Column:    c.Name,
-						Collate:   c.Collate,
-						SortOrder: sql.Asc,
-					},
+		uniqueColumn := func() {
+			unique([]IndexColumn{
+				{
+					Column:    c.Name,
+					Collate:   c.Collate,
+					SortOrder: sql.Asc,
 				},
-			) {
-				autoindex++
-			}
+			})
 		}
-		st.Columns = append(st.Columns, col)
+		switch {
+		case c.PrimaryKey && c.Unique && c.UniqueFirst:
+			uniqueColumn()
+			primaryKey()
+		case c.PrimaryKey && c.Unique:
+			primaryKey()
+			uniqueColumn()
+		case c.PrimaryKey:
+			primaryKey()
+		case c.Unique:
+			uniqueColumn()
+		}
 	}
 constraint:
 	for _, c := range ct.Constraints {
 		switch c := c.(type) {
 		case sql.TablePrimaryKey:
-			if !ct.WithoutRowid && len(c.IndexedColumns) == 1 {
-				// is this column an alias for the rowid?
+			aliasable := false
+			if len(c.IndexedColumns) == 1 {
+				// could this column be an alias for the rowid?
 				col := st.column(c.IndexedColumns[0].Column)
 				if col == nil {
 					// unknown column, or an expression
 					return nil, ErrInvalidDef
 				}
-				if isRowid(true, col.Type, c.IndexedColumns[0].SortOrder) {
+				aliasable = isRowid(true, col.Type, c.IndexedColumns[0].SortOrder)
+				if aliasable && !ct.WithoutRowid {
 					col.Rowid = true
 					st.RowidPK = true
 					continue constraint
@@ -181,19 +214,19 @@ constraint:
 					}
 					col.Null = false
 				}
-				st.setPK(st.toIndexColumns(c.IndexedColumns))
-				autoindex++
+				cols := st.toIndexColumns(c.IndexedColumns)
+				if aliasable {
+					// a COLLATE given here is not used for such a key
+					cols[0].Collate = st.column(cols[0].Column).Collate
+				}
+				withoutRowidPK(cols, aliasable)
 				continue
 			}
-			name := fmt.Sprintf("sqlite_autoindex_%s_%d", st.Table, autoindex)
-			if st.addIndex(true, name, st.toIndexColumns(c.IndexedColumns)) {
+			if st.addIndex(true, autoname(), st.toIndexColumns(c.IndexedColumns)) {
 				autoindex++
 			}
 		case sql.TableUnique:
-			name := fmt.Sprintf("sqlite_autoindex_%s_%d", st.Table, autoindex)
-			if st.addIndex(false, name, st.toIndexColumns(c.IndexedColumns)) {
-				autoindex++
-			}
+			unique(st.toIndexColumns(c.IndexedColumns))
 		}
 	}
 
@@ -257,6 +290,16 @@ func (st *Schema) addIndex(pk bool, name string, cols []IndexColumn) bool {
 		st.PrimaryKey = name
 	}
 	return true
+}
+
+// findIndex gives the index on exactly these columns, if any
+func (st *Schema) findIndex(cols []IndexColumn) *SchemaIndex {
+	for i, ind := range st.Indexes {
+		if sameIndexColumns(ind.Columns, cols) {
+			return &st.Indexes[i]
+		}
+	}
+	return nil
 }
 
 // sets the PK key (for non-rowid tables). Deletes any duplicate indexes.
@@ -337,14 +380,15 @@ func (si *SchemaIndex) Column(name string) int {
 }
 
 // A primary key can be an alias for the rowid iff:
-//  - this is not a `WITHOUT ROWID` table (not tested here)
-//  - it's a single column of type 'INTEGER'
-//  - ASC and DESC are fine for table constraints:
+//   - this is not a `WITHOUT ROWID` table (not tested here)
+//   - it's a single column of type 'INTEGER'
+//   - ASC and DESC are fine for table constraints:
 //     CREATE TABLE foo (a integer, primary key (a DESC))
-//    but in a column statement it only works with a ASC:
+//     but in a column statement it only works with a ASC:
 //     CREATE TABLE foo (a integer primary key)
-//    invalid:
+//     invalid:
 //     ~~CREATE TABLE foo (a integer primary key DESC)~~
+//
 // If the row is an alias for the rowid it won't be stored in the datatable;
 // all values will be null.
 // See https://sqlite.org/lang_createtable.html#rowid
